@@ -87,6 +87,16 @@ def features(sc):
             f.add('vanish:' + k)
         if op in ('exit_in_tx', 'early_return', 'idle_tx_timeout', 'checkout_timeout', 'cancel', 'leave', 'reap', 'vanish'):
             f.add(op)
+    # session mode: a second client sends while the first one's session (and with it the only connection) is still open
+    if sc.get('mode') == 'session':
+        a_open = False
+        for op, c, k in ops:
+            if op == 'send' and c == 'A':
+                a_open = True
+            if op in ('leave', 'exit_in_tx', 'early_return', 'send_vanish') and c == 'A':
+                a_open = False
+            if op == 'send' and c != 'A' and a_open:
+                f.add('waits_behind_session')
     return f
 
 
@@ -296,10 +306,18 @@ def check(prop, tier, seed):
         i += 1
     v.extra['witness_scenarios'] = len(picked_w)
     chosen = picked_w + select(scenarios, rng, max(50, n - len(picked_w)), want)
+    if prop in ('C01', 'C04'):
+        # quota: session-mode histories in which a client has to wait behind another client's open session
+        have = {json.dumps(sc['steps'], sort_keys=True) for sc in chosen}
+        extra = [sc for sc in scenarios if 'waits_behind_session' in features(sc) and json.dumps(sc['steps'], sort_keys=True) not in have]
+        rng.shuffle(extra)
+        extra = extra[:40]
+        chosen = chosen[:len(chosen) - len(extra)] + extra if len(chosen) > len(extra) + len(picked_w) else chosen + extra
     for i, sc in enumerate(chosen):
         sc['id'] = i + 1
         sc['seed'] = seed * 100003 + i
-        sc['mode_at'] = 'user' if i % 3 == 1 else 'pool'     # where the configuration states the pool mode
+        # where the configuration states the pool mode: at pool level, or for the user (contradicting the pool level)
+        sc['mode_at'] = 'user' if (i % 3 == 1 or (sc.get('mode') == 'session' and i % 2 == 0)) else 'pool'
         sc['restart_epilogue'] = prop == 'C04' and i % 4 == 0
         sc.pop('_f', None)
     v.extra['scenarios_generated'] = len(scenarios)
